@@ -409,6 +409,9 @@ func genGame(o *Out, r *rand.Rand, thorough bool) {
 		{"k7/2n5/1K6/8/8/8/8/6B1 w - - 3 50", "m:b6c7 adj q"},
 		{"5k2/5P2/5K2/8/8/8/8/8 b - - 99 80", "adj q"},
 		{"R6k/6pp/8/8/8/8/8/6K1 b - - 100 90", "adj q"},
+		// a five-fold repetition / a clock beyond 100 is reported, and the game can still be continued and taken back
+		{fen.Initial, strings.TrimSpace(strings.Repeat("m:g1f3 m:g8f6 m:f3g1 m:f6g8 ", 4)) + " m:e2e4 q m:e7e5 pop pop pop"},
+		{"4k3/8/8/8/8/8/8/R3K3 w Q - 99 80", "m:a1a2 m:e8e7 m:a2a3 m:e7e8 q m:e1d1 pop"},
 	} {
 		line := fmt.Sprintf("game 0 %s ; %s", c[0], c[1])
 		o.do(line)
